@@ -20,6 +20,7 @@ import (
 	"strconv"
 	"strings"
 	"syscall"
+	"time"
 )
 
 // ---------- scripted crypto/rand.Reader ----------
@@ -260,6 +261,7 @@ func main() {
 	in := bufio.NewReaderSize(os.Stdin, 1<<20)
 	out := bufio.NewWriterSize(realOut, 1<<20)
 	defer out.Flush()
+	lastFlush := time.Now()
 	for {
 		line, err := in.ReadString('\n')
 		line = strings.TrimRight(line, "\n")
@@ -288,6 +290,11 @@ func main() {
 				fmt.Fprintf(out, "%s %s stdout=%s stderr=%s pmsg=%s\n", id, res, hx(so), hx(se), hxs(panicMessage))
 			} else {
 				fmt.Fprintf(out, "%s %s stdout=%s stderr=%s\n", id, res, hx(so), hx(se))
+			}
+			if time.Since(lastFlush) > 200*time.Millisecond {
+				// if the code under test hangs on a later case, the results so far are not lost
+				out.Flush()
+				lastFlush = time.Now()
 			}
 		}
 		if err != nil {
